@@ -37,6 +37,7 @@ def required(tier):
         "deterministic.sentences_accepted": 300,
         "deterministic.glr_equal": 300,
         "cells.exercised": 2000,
+        "deterministic.tables_walked": 50,
         "option.ps=True": 100,
         "option.pse=True": 100,
         "option.SLR": 100,
@@ -95,6 +96,15 @@ def one_grammar(ctx, mon, g, alphabet, maxlen):
         if det:
             ctx.count("parsers.deterministic")
             glr = pgx.glr(pgx.grammar(text), tables=pgx.LALR if tables == "LALR" else pgx.SLR)
+            # exactness at table level: a deterministic table that lacks an action of the canonical
+            # LR(1) automaton rejects some sentence (possibly longer than the inputs tried below)
+            from pgverif.props import c05
+
+            before = len(ctx.violations)
+            c05.judge_table(ctx, g, pg, parser.table, cfg.LR1(g), tables, dict(case0, note="deterministic table vs canonical LR(1)"))
+            ctx.count("deterministic.tables_walked")
+            if len(ctx.violations) > before:
+                continue
         pkeys = pgx.prod_keys(pg)
         mon.cells = set()
         for w, inp in inputs:
